@@ -20,7 +20,8 @@ import time
 
 ROOT = os.path.dirname(os.path.dirname(os.path.abspath(__file__)))
 COQ = os.path.join(ROOT, "coq")
-OUT = os.path.join(ROOT, "out")
+# VERIF_OUT: a separate scratch directory, so that runs against several scratch checkouts do not collide
+OUT = os.environ.get("VERIF_OUT") or os.path.join(ROOT, "out")
 CACHE = os.path.join(ROOT, ".cache")
 # The code under test is /repo. For developing the checks against seeded changes without
 # disturbing /repo, VERIF_REPO may name another checkout: the harness is then built from a copy
